@@ -50,7 +50,7 @@ vars == <<c, ph>>
 Init == /\ ph = 0
         /\ \/ c \in [d : {"u2g"}, t : Trees(ULeaf)]
            \/ c \in [d : {"g2u"}, t : Trees(GCanon)]
-           \/ c \in [d : {"width"}, g : Widths, wrap : {"none", "seq", "map"}]
+           \/ c \in [d : {"width"}, g : Widths, wrap : {"none", "seq", "map", "seqfirst", "seqmid", "mapmulti", "nestseq", "nestmap"}]
 Judge == ph = 0 /\ ph' = 1 /\ UNCHANGED c
 Next == Judge
 Spec == Init /\ [][Next]_vars
